@@ -790,6 +790,13 @@ func (w *Wallet) swapToTrusted(proofs cashu.Proofs, mint *walletMint) (uint64, e
 	defaultMint := w.mints[w.defaultMint]
 	amountSwapped, err := w.swapProofs(proofsToSwap, mint, &defaultMint)
 	if err != nil {
+		// if the locked proofs were already swapped above, the token is used up: keep the new proofs
+		// as pending (if the wallet knows the mint) so that they can be reclaimed
+		if _, known := w.mints[mint.mintURL]; known && len(proofsToSwap) > 0 && proofsToSwap[0].Secret != proofs[0].Secret {
+			if perr := w.db.AddPendingProofs(proofsToSwap); perr != nil {
+				return 0, fmt.Errorf("%v (could not keep proofs as pending: %v)", err, perr)
+			}
+		}
 		return 0, err
 	}
 
